@@ -621,8 +621,8 @@ class Executor:
             if isinstance(op, ast.RShift) and not real:
                 cb = const_int(tb)
                 if cb is not None and cb >= 0:
-                    # floor division by 2**cb (python semantics for negative too)
-                    q = fresh_int("shr")
+                    # floor division by 2**cb (python semantics for negative too), as a function of the operand
+                    q = z3.Function("shr%d" % cb, I, I)(ta)
                     st.assume(q * (2 ** cb) <= ta, ta < (q + 1) * (2 ** cb))
                     return [self.res(st, SInt(q))]
             if isinstance(op, ast.FloorDiv) and not real:
